@@ -9,6 +9,7 @@ LEAN_TARGETS = ["CLModel.Props.C20"]
 M = "CLModel.Props.C20"
 THEOREMS = [
     (M, "C20.addRemove_eq_spec", "diff of duplicate-free sequences = closed form (left order kept, right-only keys after their anchor)"),
+    (M, "C20.ar_anchor", "right-only keys follow the last key preceding them in the second sequence that is also in the first"),
     (M, "C20.ar_keys_perm", "every key of either side occurs exactly once"),
     (M, "C20.ar_keys_nodup", "no key is yielded twice"),
     (M, "C20.ar_labels", "labels are decided by membership only"),
@@ -17,6 +18,14 @@ THEOREMS = [
     (M, "C20.keyed_contains", "key membership = some entity has the key"),
 ]
 PARTIAL = []
+LEVEL_TEXT = ("Lean 4 theorems over an executable transliteration of AddRemove.__iter__ and KeyedTuple: for ALL duplicate-free key "
+              "sequences the diff equals a closed form (each key once, labels by membership, left order kept, right-only keys after "
+              "their anchor) and keyed lookup returns the last entity; the model is tied to the Python by exhaustive small + random "
+              "differential runs, and an independent oracle checks the property on the implementation")
+LEVEL_NOTE = ("trusted: Lean kernel; hand-written model of dict/sorted (association list + merge sort) validated by correspondence; "
+              "theorems need duplicate-free sequences (negation witnesses show why); hashing independence is by construction of the model "
+              "and by running str and tuple keys")
+TECHNIQUE = "Lean 4 proof (closed form of the key diff) + differential correspondence with the Python implementation"
 TRUSTED = [
     "hand-written model CLModel/Compare/AddRemove.lean of AddRemove.__iter__ and KeyedTuple (tied by the `ar`/`keyed` correspondence)",
     "Python dict/sorted modelled as association list + stable merge sort",
